@@ -138,6 +138,100 @@ def main():
         return [f"def pdfMoneyExactDecimal : Bool := {'true' if exact else 'false'}",
                 f"def pdfMoneyDp : Nat := {m.group(1)}", f"def pdfQtyDp : Nat := {q.group(1)}"]
 
+    @group("grammar")
+    def _():
+        pest = read("crates/cgt-core/src/parser.pest")
+        # rule name -> body with comments and all white space removed
+        body = re.sub(r"//[^\n]*", "", pest)
+        rules = {}
+        for m in re.finditer(r"(?ms)^(\w+)\s*=\s*([_@$!]?)\{(.*?)\}\s*(?=^\w+\s*=|\Z)", body):
+            rules[m.group(1)] = m.group(2) + "{" + re.sub(r"\s+", "", m.group(3)) + "}"
+        # the shapes the Lean reader (Dsl.lean) is a transcription of
+        expected = {
+            "transaction_list": "{SOI~(line~NEWLINE)*~line?~EOI}",
+            "line": '_{transaction|COMMENT|""}',
+            "transaction": "{date~command}",
+            "command": "{cmd_buy|cmd_sell|cmd_dividend|cmd_accumulation|cmd_capreturn|cmd_split|cmd_unsplit}",
+            "cmd_buy": '{^"BUY"~ticker~quantity~price~fees?}',
+            "cmd_sell": '{^"SELL"~ticker~quantity~price~fees?}',
+            "cmd_dividend": '{^"DIVIDEND"~ticker~total_value~tax?}',
+            "cmd_accumulation": '{^"ACCUMULATION"~ticker~quantity~total_value~tax?}',
+            "cmd_capreturn": '{^"CAPRETURN"~ticker~quantity~total_value~fees?}',
+            "cmd_split": '{^"SPLIT"~ticker~ratio_value}',
+            "cmd_unsplit": '{^"UNSPLIT"~ticker~ratio_value}',
+            "price": '{"@"~money}',
+            "total_value": '{^"TOTAL"~money}',
+            "fees": '{^"FEES"~money}',
+            "tax": '{^"TAX"~money}',
+            "ratio_value": '{^"RATIO"~ratio}',
+            "money": "{decimal~currency_code?}",
+            "date": '@{ASCII_DIGIT{4}~"-"~ASCII_DIGIT{2}~"-"~ASCII_DIGIT{2}}',
+            "ticker": "@{ASCII_ALPHANUMERIC+}",
+            "quantity": "@{decimal}",
+            "ratio": "@{decimal}",
+            "decimal": '@{ASCII_DIGIT+~("."~ASCII_DIGIT+)?}',
+            "WHITESPACE": '_{""|"\\t"}',
+            "COMMENT": '_{"#"~(!NEWLINE~ANY)*}',
+            "NEWLINE": '_{"\\r\\n"|"\\n"|"\\r"}',
+        }
+        for name, want in expected.items():
+            got = rules.get(name)
+            if name == "WHITESPACE" and got is not None:
+                got = got.replace('" "', '""')  # the blank was removed with the white space
+            if got != want:
+                raise Missing(f"parser.pest: rule {name} is {got!r}, the Lean reader transcribes {want!r}")
+        extra = set(rules) - set(expected) - {"currency_code"}
+        if extra:
+            raise Missing(f"parser.pest: rules the Lean reader does not know: {sorted(extra)}")
+        cc = rules.get("currency_code") or ""
+        m = re.fullmatch(r'@\{!\((.*?)\)~ASCII_ALPHA\{3\}~!\(ASCII_ALPHANUMERIC\|"-"\)\}', cc)
+        if not m:
+            raise Missing(f"parser.pest: currency_code is {cc!r}: not `!(keywords) ~ ASCII_ALPHA{{3}} ~ !(ASCII_ALPHANUMERIC | \"-\")`")
+        kws = m.group(1).split("|")
+        parsed = [re.fullmatch(r'(\^?)"([A-Z]+)"', k) for k in kws]
+        if not all(parsed):
+            raise Missing(f"parser.pest: currency_code guard {m.group(1)!r} is not a list of keyword literals")
+        ci = {bool(x.group(1)) for x in parsed}
+        if len(ci) != 1:
+            raise Missing("parser.pest: currency_code guard mixes case-sensitive and case-insensitive keywords")
+        return ["def dslGuardKeywords : List String := [" + ", ".join('"' + x.group(2) + '"' for x in parsed) + "]",
+                f"def dslGuardCaseInsensitive : Bool := {'true' if ci.pop() else 'false'}"]
+
+    @group("writer")
+    def _():
+        src = read("crates/cgt-core/src/dsl.rs").split("#[cfg(test)]")[0]
+        norm = re.sub(r"\s+", "", src)
+        m = re.search(r'letdate=tx\.date\.format\("([^"]*)"\);', norm)
+        if not m:
+            raise Missing("dsl.rs: `let date = tx.date.format(\"…\")` not found")
+        datefmt = m.group(1)
+        # one arm per operation: head format + arguments, optional clause keyword + the field it prints
+        arms = {
+            "Buy": ('"{}BUY{}{}@{}",date,tx.ticker,amount,format_amount(price)', "fees", "FEES"),
+            "Sell": ('"{}SELL{}{}@{}",date,tx.ticker,amount,format_amount(price)', "fees", "FEES"),
+            "Dividend": ('"{}DIVIDEND{}TOTAL{}",date,tx.ticker,format_amount(total_value)', "tax_paid", "TAX"),
+            "Accumulation": ('"{}ACCUMULATION{}{}TOTAL{}",date,tx.ticker,amount,format_amount(total_value)', "tax_paid", "TAX"),
+            "CapReturn": ('"{}CAPRETURN{}{}TOTAL{}",date,tx.ticker,amount,format_amount(total_value)', "fees", "FEES"),
+        }
+        for op, (head, fld, kw) in arms.items():
+            want = f'letmutline=format!({head});if!{fld}.amount.is_zero(){{line.push_str(&format!("{kw}{{}}",format_amount({fld})));}}line'
+            i = norm.find(f"Operation::{op}{{")
+            j = norm.find("Operation::", i + 5)
+            seg = norm[i:j if j > 0 else len(norm)]
+            if want not in seg:
+                raise Missing(f"dsl.rs: the {op} arm is not the one the Lean writer transcribes")
+        for op, kw in (("Split", "SPLIT"), ("Unsplit", "UNSPLIT")):
+            if f'Operation::{op}{{ratio}}=>{{format!("{{}}{kw}{{}}RATIO{{}}",date,tx.ticker,ratio)}}' not in norm:
+                raise Missing(f"dsl.rs: the {op} arm is not the one the Lean writer transcribes")
+        # blanks inside the format strings (lost by the normalisation above): check the literals themselves
+        for lit in ['"{} BUY {} {} @ {}"', '"{} SELL {} {} @ {}"', '"{} DIVIDEND {} TOTAL {}"', '"{} ACCUMULATION {} {} TOTAL {}"',
+                    '"{} CAPRETURN {} {} TOTAL {}"', '"{} SPLIT {} RATIO {}"', '"{} UNSPLIT {} RATIO {}"', '" FEES {}"', '" TAX {}"', '"{} {}", amount.amount, amount.code()']:
+            if lit not in src:
+                raise Missing(f"dsl.rs: literal {lit} not found")
+        if '.join("\\n")' not in src:
+            raise Missing("dsl.rs: transactions_to_dsl does not join with a newline")
+        return [f'def dslDateFormat : String := "{datefmt}"']
+
     @group("rsu")
     def _():
         aw = "crates/cgt-converter/src/schwab/awards.rs"
@@ -151,7 +245,7 @@ def main():
         old = open(OUT, encoding="utf-8").read()
     except OSError:
         pass
-    order = ["window", "taxyear", "mcp_year", "disposal_round", "exemptions", "money_round", "pdf_round", "rsu"]
+    order = ["window", "taxyear", "mcp_year", "disposal_round", "exemptions", "money_round", "pdf_round", "grammar", "writer", "rsu"]
     lines = []
     for gname in order:
         if gname in GROUPS:
